@@ -16,6 +16,12 @@ def main():
         print(f"[setup] dispatch tables regenerated (changed={changed}); extraction problems: {F.errors}")
     except Exception as e:  # noqa - reported by ./check C19, not by setup
         print(f"[setup] dispatch tables: {type(e).__name__}: {e}")
+    try:  # C16: the interface tables (lean/Tsv/Gen/IfaceTables.lean) are generated, not committed
+        from . import iface
+        _, _, problems = iface.write_tables(iface.needs_table(), iface.trace_cells())
+        print(f"[setup] interface tables regenerated; unclassified cells: {problems[:3]}")
+    except Exception as e:  # noqa - reported by ./check C16, not by setup
+        print(f"[setup] interface tables: {type(e).__name__}: {e}")
     mods = sorted('Tsv.Proofs.' + os.path.basename(p)[:-5] for p in glob.glob(os.path.join(core.LEAN, 'Tsv', 'Proofs', '*.lean')))
     mods += sorted('Tsv.GenF.' + os.path.basename(p)[:-5] for p in glob.glob(os.path.join(core.LEAN, 'Tsv', 'GenF', '*.lean')))
     ok, log, errs, dt = core.lake_build(mods, timeout=7200)
